@@ -1,6 +1,7 @@
 #!/bin/bash
 # Determinism self-test: for every check, the trace hashes of the first N runs must be
-# identical across many processes at different GOMAXPROCS and worker counts.
+# identical across many processes at different GOMAXPROCS and worker counts; so must what each run
+# contributes to the evidence measures (hash of its abstract states, non-triviality).
 # usage: selftest_determinism.sh [N=200] [PROCS=30] [ids...]
 set -u
 VERIF="$(cd "$(dirname "$0")/.." && pwd)"
